@@ -532,7 +532,7 @@ impl Conn {
 	fn connect(&mut self) {
 		// initiator side 1
 		if self.is_raw(1) {
-			self.raw_handshake();
+			// the raw initiator sends act one (or garbage) when the script says so
 		} else {
 			let sock = self.sock[0].clone().unwrap();
 			let act1 = self.pm[0].as_ref().unwrap().new_outbound_connection(node_id(2), sock.clone(), None);
@@ -728,7 +728,19 @@ impl Conn {
 	}
 
 	fn resolve(&self, d: usize, u: usize, o: usize) -> Option<usize> {
-		let us = units_of(&self.dir[d - 1].frames);
+		let mut frames = self.dir[d - 1].frames.clone();
+		if !self.is_raw(d) {
+			// frames of messages the handler has not handed over yet
+			let known = frames.iter().filter(|f| f.kind == "msg" || f.kind == "chan").count();
+			let handed = self.h[d - 1].handed.lock().unwrap();
+			for p in handed.iter().skip(known) {
+				frames.push(Frame { kind: "msg", len: HDR + p.size + TAG });
+			}
+			for p in self.h[d - 1].pending.lock().unwrap().iter() {
+				frames.push(Frame { kind: "msg", len: HDR + p.size + TAG });
+			}
+		}
+		let us = units_of(&frames);
 		let unit = us.get(u)?;
 		let g = grid(unit);
 		Some(unit.start + g[o.min(g.len() - 1)])
@@ -1146,7 +1158,21 @@ impl Conn {
 		match name {
 			"queue" => self.op_queue(gu("d"), gu("size"), op["kind"].as_str() == Some("chan")),
 			"pe" => self.op_pe(gu("s")),
-			"budget" => self.op_budget(gu("s"), op["k"].as_i64().unwrap_or(-1)),
+			"budget" => {
+				if op.get("u").is_some() {
+					// the socket takes bytes up to a position of the stream
+					let s = gu("s");
+					match self.resolve(s, gu("u"), gu("o")) {
+						Some(target) if !self.is_raw(s) && target > self.auth_len(s) => {
+							let k = (target - self.auth_len(s)) as i64;
+							self.op_budget(s, k)
+						},
+						_ => self.stats.skipped += 1,
+					}
+				} else {
+					self.op_budget(gu("s"), op["k"].as_i64().unwrap_or(-1))
+				}
+			},
 			"read" => {
 				if op.get("u").is_some() {
 					self.op_read_to(gu("d"), gu("u"), gu("o"))
@@ -1237,7 +1263,6 @@ fn random_script(rng: &mut StdRng) -> Value {
 		_ => 0,
 	};
 	let tampering = rng.gen_bool(0.45);
-	ops.push(json!({"op":"pe","s":1}));
 	if raw_side == 1 && rng.gen_bool(0.12) {
 		// arbitrary bytes instead of a handshake
 		ops.push(json!({"op":"raw_garbage","n": *[1usize, 10, 49, 50, 51, 116, 300].get(rng.gen_range(0..7)).unwrap(), "flavour": rng.gen_range(0..3)}));
@@ -1247,6 +1272,7 @@ fn random_script(rng: &mut StdRng) -> Value {
 		ops.push(json!({"op":"drain"}));
 		return json!({"mode":mode,"ops":ops});
 	}
+	ops.push(json!({"op":"pe","s":1}));
 	if rng.gen_bool(0.25) {
 		// back-pressure during the handshake
 		ops.push(json!({"op":"budget","s":rng.gen_range(1..=2),"k":rng.gen_range(0..60)}));
